@@ -43,6 +43,10 @@ def tok_text(t, marker=None) -> str:
         return ML_TEXT
     if ty == "st":
         return str(a)
+    if ty == "cw":
+        return "cw=w%d" % a
+    if ty == "ev":
+        return "ev=%d" % a
     if ty in ("ma", "mb") and marker is None:
         return STALE_MARK if ty == "ma" else ""
     if ty in ("ma", "mb"):
@@ -52,7 +56,21 @@ def tok_text(t, marker=None) -> str:
     raise ValueError(t)
 
 
-def out_tokens(shape, k):
+STATE_VAR = "VHS"      # the variable whose value a "probe" command prints
+
+
+def has_wd(attr):
+    return attr.get("pre", "none") in ("wd", "both")
+
+
+def has_env(attr):
+    return attr.get("pre", "none") in ("env", "both")
+
+
+def out_tokens(shape, k, cwd=0, env=0):
+    """Output of command k; a "probe" prints the directory (w<cwd>) and the variable (env) it sees."""
+    if shape == "probe":
+        return [["cw", cwd, 0], ["nl", 0, 0], ["ev", env, 0]]
     return {"empty": [], "nonl": [["o", k, 1]],
             "multi": [["o", k, 1], ["nl", 0, 0], ["e", k, 2], ["o", k, 3], ["nl", 0, 0]],
             "mlike": [["ml", 0, 0], ["nl", 0, 0], ["o", k, 1]]}[shape]
@@ -62,9 +80,9 @@ def text_of(tokens) -> str:
     return "".join(tok_text(t) for t in tokens)
 
 
-def stream_tokens(attr, k):
+def stream_tokens(attr, k, cwd=0, env=0):
     """Tokens the shell emits for command k (before the end marker), with the stall position."""
-    out = out_tokens(attr["shape"], k)
+    out = out_tokens(attr["shape"], k, cwd, env)
     if attr["slow"] == "pre" or (attr["slow"] == "mid" and not out):
         return [["stall", 0, 0]] + out
     if attr["slow"] == "mid":
@@ -84,6 +102,7 @@ case "$shape" in
   nonl)  printf 'o%s_1é' "$k"; mid ;;
   multi) printf 'o%s_1é' "$k"; mid; printf '\n'; printf 'e%s_2' "$k" >&2; printf 'o%s_3é\n' "$k" ;;
   mlike) printf '%s' 'SF_CMD_END_deadbeef-0000-4000-8000-000000000000:7'; mid; printf '\no%s_1é' "$k" ;;
+  probe) printf 'cw=%s' "$(basename "$(pwd -P)")"; mid; printf '\nev=%s' "${VHS-0}" ;;
 esac
 echo "$k $$" >> "$dir/done"
 exit "$status"
@@ -99,6 +118,14 @@ def write_cmd_script(d: str) -> str:
 
 def command_for(script, d, k, attr, stall):
     return ["sh", script, d, str(k), attr["shape"], str(attr["status"]), attr["slow"], str(stall)]
+
+
+def workdir_for(d, k, attr):
+    return os.path.join(d, "w%d" % k) if has_wd(attr) else None
+
+
+def environment_for(k, attr):
+    return {STATE_VAR: str(k)} if has_env(attr) else None
 
 
 def classify_exc(e) -> str:
@@ -180,6 +207,8 @@ class FakeShellProc:
         self.pending = None
         self.read_sizes = []
         self.exited = asyncio.Event()
+        self.cwd = 0              # the shell's own state: directory w<cwd>, value of VHS (0 = unset)
+        self.env = 0
 
     # ---- what the code under test does to the process
     def feed(self, data: bytes):
@@ -194,7 +223,7 @@ class FakeShellProc:
             merged = False
             if line.endswith(" 2>&1"):
                 line, merged = line[:-5], True
-            cmd = self.world.parse_command(line)
+            cmd = self.world.parse_line(line)
             if cmd is not None:
                 cmd.update(marker=m.group("marker"), merged=merged)
         if cmd is None:
@@ -235,7 +264,11 @@ class FakeShellProc:
             k = self.cur["k"]
             self.world.executions.append({"k": k, "where": "shell", "garbled": self.cur["garbled"]})
             attr = self.world.attr(k)
-            toks = stream_tokens(attr, k)
+            seen_cwd = self.cur["cd"] if self.cur.get("cd") is not None else self.cwd
+            seen_env = self.cur["export"] if self.cur.get("export") is not None else self.env
+            if self.cur.get("in_shell"):        # the preamble was executed by this shell itself: it stays in effect
+                self.cwd, self.env = seen_cwd, seen_env
+            toks = stream_tokens(attr, k, seen_cwd, seen_env)
             if not self.cur["merged"]:
                 toks = [t for t in toks if t[0] != "e"]
             self.rem = toks + [["ma", k, 0], ["mb", k, 0], ["st", attr["status"], 0], ["nl", 0, 0]]
@@ -276,7 +309,7 @@ class _FakeFreshProc:
         attr = self.world.attr(k)
         if attr["slow"] != "no":
             await asyncio.sleep(self.stall)
-        toks = out_tokens(attr["shape"], k)
+        toks = out_tokens(attr["shape"], k, self.cmd.get("cd") or 0, self.cmd.get("export") or 0)
         out = "".join(tok_text(t) for t in toks if self.merged or t[0] != "e")
         err = "" if self.merged else "".join(tok_text(t) for t in toks if t[0] == "e")
         self.returncode = attr["status"]
@@ -317,6 +350,56 @@ class FakeWorld:
             return None
         return self.parse_words(words)
 
+    _BRACE = re.compile(r"\A\{ (?P<inner>.*); \}\Z", re.S)
+    _PAREN = re.compile(r"\A\( ?(?P<inner>.*?) ?\)\Z", re.S)
+
+    def parse_line(self, line: str):
+        """A command line as the code writes it to a shell: the command itself, or the command behind a
+        `cd <dir>` / `export VHS=<k>` preamble that is wrapped in a child `sh -c '...'`, a subshell `( ... )`
+        or a brace group `{ ...; }` (the last one is executed by the shell that reads the line)."""
+        line = line.strip()
+        in_shell = True
+        inner = line
+        try:
+            words = shlex.split(line)
+        except ValueError:
+            words = []
+        m = self._BRACE.match(line)
+        if len(words) == 3 and words[:2] == ["sh", "-c"]:
+            inner, in_shell = words[2], False
+        elif m:
+            inner = m.group("inner")
+        elif self._PAREN.match(line):
+            inner, in_shell = self._PAREN.match(line).group("inner"), False
+        parts = [p for p in re.split(r"\s*(?:;|&&)\s*", inner) if p]
+        cd = export = None
+        cmd = None
+        for part in parts:
+            try:
+                w = shlex.split(part)
+            except ValueError:
+                return None
+            if w and w[0] == "cd" and len(w) == 2:
+                base = os.path.basename(w[1])
+                if not re.fullmatch(r"w\d+", base):
+                    return None
+                cd = int(base[1:])
+            elif w and w[0] == "export" and len(w) == 2 and w[1].startswith(STATE_VAR + "="):
+                try:
+                    export = int(w[1].split("=", 1)[1])
+                except ValueError:
+                    return None
+            elif cmd is None:
+                cmd = self.parse_words(w)
+                if cmd is None:
+                    return None
+            else:
+                return None
+        if cmd is None:
+            return None
+        cmd.update(cd=cd, export=export, in_shell=in_shell and (cd is not None or export is not None))
+        return cmd
+
     def parse_words(self, words):
         if len(words) < 4 or words[0] != "sh" or words[1] != self.script or words[2] != self.dir:
             return None
@@ -339,7 +422,7 @@ class FakeWorld:
             line = argv[2].strip()
             if line.endswith(" 2>&1"):
                 line, merged = line[:-5], True
-            cmd = self.parse_command(line)
+            cmd = self.parse_line(line)
         else:
             cmd = self.parse_words(argv)
         if cmd is None:
@@ -453,6 +536,8 @@ async def replay_fake(beh, byte_split=None):
                     await complete(k - 1)
                 tasks[k] = asyncio.ensure_future(
                     conn.run(loc, world.command(k), capture_output=True,
+                             workdir=workdir_for(world.dir, k, world.attr(k)),
+                             environment=environment_for(k, world.attr(k)),
                              timeout=world.T if world.attr(k)["tmo"] else None))
                 await _settle()
             elif a == "run":
@@ -625,7 +710,10 @@ async def replay_real(beh, d, script, T, STALL):
         k = st["k"]
         attr = beh["attr"][k - 1]
         t0 = time.time()
+        if has_wd(attr):
+            os.makedirs(workdir_for(d, k, attr), exist_ok=True)
         res, exc = await se.guarded(conn.run(loc, command_for(script, d, k, attr, STALL), capture_output=True,
+                                             workdir=workdir_for(d, k, attr), environment=environment_for(k, attr),
                                              timeout=T if attr["tmo"] else None), 6 * STALL + 60)
         remember_shell()
         el = round(time.time() - t0, 2)
